@@ -464,6 +464,76 @@ def main(tier='quick'):
                 cases.append(obs)
                 metas.append({'ts': str(ts), 'dir': False, 'maxA': 16384, 'maxB': 16384, 'size': 'concurrent requesters', 'from_file': False,
                               'outcome': obs['handlerStatus'], 'repeat': False, 'roles': 'scp'})
+        # one instance (64-character UID) stored again and again into the storage directory: every reception ends up in
+        # its own readable file, however many there are already
+        if n_err < 3:
+            n_rep = 75 if tier == 'quick' else 150
+            sdir = tempfile.mkdtemp(prefix='many_', dir=work)
+            srv_m = pynetdicom2.StorageAE(sdir, 'SRV', 0, supported_ts=[TSS[0]], max_pdu_length=16384)
+            try:
+                srv_m.server_close()
+            except Exception:     # noqa
+                pass
+            srv_m.add_scp(sc.storage_scp)
+            statuses_seen = []
+            srv_m.on_receive_store = lambda context, ds_: statuses_seen.append(1) or statuses.SUCCESS
+            srv_m.timeout = 60
+            cl_m = ae_mod.ClientAE('CL', supported_ts=[TSS[0]], max_pdu_length=16384).add_scu(sc.storage_scu, [CT])
+            cl_m.timeout = 60
+            uid64 = ('1.2.826.0.1.3680043.8.498.' + '1234567890' * 6)[:64]
+            ds_m = make_dataset(rng, 20, uid64)
+            err_m, done = None, 0
+            with R.Net() as net:
+                nets.append(net)
+                net.register(ADDR, srv_m)
+                try:
+                    with cl_m.request_association(REMOTE) as assoc:
+                        svc_m = assoc.get_scu(CT)
+                        for k in range(n_rep):
+                            if int(svc_m(ds_m, k + 1)) != 0:
+                                break
+                            done += 1
+                except Exception as exc:      # noqa
+                    err_m = '%s: %s' % (type(exc).__name__, exc)
+                net.wait_all(60)
+            files = listing(sdir)
+            data_m = dsref.encode(ds_m, True, True)
+            good = [f_ for f_ in files if f_['d'] == tok(data_m)]
+            if err_m or done != n_rep or len(files) != n_rep or len(good) != n_rep:
+                v.report({'site': 'whole-stack', 'clause': 'every-reception-of-a-repeated-instance-in-its-own-readable-file'},
+                         'one instance (64-character UID) stored %d times into the storage directory: %d stores answered with Success, %d files, %d of them '
+                         'readable with the transmitted content%s' % (n_rep, done, len(files), len(good), ('; the sender got %s' % err_m) if err_m else ''),
+                         replay={'many_repeats': n_rep})
+        # a data set of several hundred fragments (360 kB under a maximum of 1024): delivered intact, well within the
+        # association time-outs (15 s by default) - the transfer does not crawl
+        if n_err < 3:
+            import time as _time
+            h_big = Handler()
+            srv_b = R.server_ae(ae_mod.AE, 'SRV', 0, supported_ts=[TSS[1]], max_pdu_length=65536)
+            srv_b.add_scp(sc.storage_scp)
+            srv_b.on_receive_store = h_big
+            cl_b2 = ae_mod.ClientAE('CL', supported_ts=[TSS[1]], max_pdu_length=1024).add_scu(sc.storage_scu, [CT])
+            ds_b = make_dataset(rng, 100, None)
+            ds_b.PixelData = bytes(rng.getrandbits(8) for _ in range(1000)) * 360
+            ds_b['PixelData'].VR = 'OW'
+            data_b = dsref.encode(ds_b, False, True)
+            err_b, st_b = None, -1
+            t0 = _time.time()
+            with R.Net() as net:
+                nets.append(net)
+                net.register(ADDR, srv_b)
+                try:
+                    with cl_b2.request_association(REMOTE) as assoc:
+                        st_b = int(assoc.get_scu(CT)(ds_b, 1))
+                except Exception as exc:      # noqa
+                    err_b = '%s: %s' % (type(exc).__name__, exc)
+                net.wait_all(60)
+            took = _time.time() - t0
+            if err_b or st_b != 0 or h_big.got['d'] != tok(data_b) or not h_big.got['readable']:
+                v.report({'site': 'whole-stack', 'clause': 'long-transfer-delivered-intact'},
+                         'a %d-byte data set sent under a maximum PDU length of 1024 (%d fragments, default time-outs): status %s, handler saw the transmitted '
+                         'content: %s, sender got %s after %.1f s' % (len(data_b), len(data_b) // 1018 + 1, st_b, h_big.got['d'] == tok(data_b), err_b, took),
+                         replay={'long_transfer': len(data_b)})
         # the requester proposes all three syntaxes, the provider supports exactly one of them
         for k in range(3):
             if n_err >= 3:
